@@ -321,3 +321,40 @@ Definition check_rename_case (r' : routine) (i i' : impl_result) (back : list (s
       | _, _ => [1%nat]
       end in
   (tie, spec).
+
+(* ---------- C09: the same routine listed in another order ---------- *)
+(* retained constraints must agree as sets: same sides (semantically) and same status *)
+Definition cstatus_eqb (a b : cstatus) : bool :=
+  match a, b with CInconclusive, CInconclusive | CSatisfied, CSatisfied | CViolated, CViolated => true | _, _ => false end.
+
+Fixpoint constraints_match (fuel : nat) (inexact : bool) (pts : list (string -> Q)) (a b : ctree expr) : list nat :=
+  match fuel with
+  | O => [1%nat]
+  | S f =>
+      let same (c d : expr * expr * cstatus) :=
+          cstatus_eqb (snd c) (snd d) &&
+          forallb (fun r => (Nat.eqb (cmpx inexact r (fst (fst c)) (fst (fst d))) 0
+                             && Nat.eqb (cmpx inexact r (snd (fst c)) (snd (fst d))) 0)
+                            || (Nat.eqb (cmpx inexact r (fst (fst c)) (snd (fst d))) 0
+                                && Nat.eqb (cmpx inexact r (snd (fst c)) (fst (fst d))) 0)) pts in
+      ((if Nat.eqb (List.length (ct_constraints a)) (List.length (ct_constraints b)) then 0%nat else 1%nat)
+         :: map (fun c => if existsb (same c) (ct_constraints b) then 0%nat else 1%nat) (ct_constraints a)
+         ++ flat_map (fun k => match find_ct (ct_name k) (ct_children b) with
+                               | Some k' => constraints_match f inexact pts k k'
+                               | None => [1%nat]
+                               end) (ct_children a))%list
+  end.
+
+Definition check_permute_case (r' : routine) (i i' : impl_result) (inexact : bool) (pts : list (list (string * Q)))
+  : list nat * list nat :=
+  let tie := tie_compile r' i' inexact pts in
+  let spec :=
+      match i, i' with
+      | IOk t, IOk t' =>
+          (flat_map (fun ra => cmp_trees2 (S (ct_height t)) (cmp inexact) ra ra t t') (points_of pts)
+           ++ params_equal (S (ct_height t)) t t'
+           ++ constraints_match (S (ct_height t)) inexact (points_of pts) t t')%list
+      | IErr a, IErr b => [if String.eqb a b then 0%nat else 1%nat]
+      | _, _ => [1%nat]
+      end in
+  (tie, spec).
